@@ -207,6 +207,37 @@ static int g_mon_state0;
         RI(g_rt) && ag.cam_closes == g_cam_closes0)                                           \
     ASG()
 
+/* Stub contract of acquire_abort for the units that verify its callers (acquire_shutdown,
+ * acquire_configure), selected with goto-instrument --replace-calls. It asserts the
+ * precondition of CONTRACT_acquire_abort at the call site and then establishes exactly its
+ * postcondition STOP_POST: the workers of every valid stream are joined (through the same
+ * thread_join stub, so the exit effects of the worker bodies are applied), the sink channel
+ * accepts writes, the monitor reader is unmapped and drained, the runtime is Armed. The
+ * real acquire_abort is proved against that contract in acquire.abort.s0/s1. */
+enum AcquireStatusCode
+stub_acquire_abort(struct AcquireRuntime* self_)
+{
+    VASSERT(self_ == &g_rt->handle && RI(g_rt) && NO_LEAK(g_rt),
+            "[C08.callsite-invariant] acquire_abort is called on a runtime that satisfies the invariant");
+    for (int s = 0; s < 2; ++s) {
+        if (!VALID(g_rt, s))
+            continue;
+        struct video_s* v = &g_rt->video[s];
+        v->source.is_stopping = 1;
+        thread_join(&v->source.thread);
+        thread_join(&v->filter.thread);
+        thread_join(&v->sink.thread);
+        ag.accept[s] = 1;
+        ag.n_accept_calls[s] += 2;
+        v->monitor.reader.state = ChannelState_Unmapped;
+        ag.mon_mapped[s] = 0;
+        if (v->monitor.reader.id)
+            ag.mon_intervals[s] = 0;
+    }
+    g_rt->state = DeviceState_Armed;
+    return AcquireStatus_Ok;
+}
+
 /* ================================================================== harnesses */
 #ifdef QUIET_STREAM
 #define A_ (1 - QUIET_STREAM) /* the arbitrary stream */
@@ -420,6 +451,10 @@ h_acquire_configure(void)
     struct AcquireRuntime* self_ = arb_runtime();
     memset(&g_props, 0, sizeof(g_props));
     for (int s = 0; s < 2; ++s) {
+#ifdef QUIET_STREAM
+        if (s == QUIET_STREAM)
+            continue; /* disabled in the new settings as well (kind None for both devices) */
+#endif
         g_props.video[s].camera.identifier.kind = (enum DeviceKind)(nd_uchar() % 3);
         g_props.video[s].camera.identifier.driver_id = nd_uchar();
         g_props.video[s].camera.identifier.device_id = nd_uchar();
